@@ -31,7 +31,7 @@ def bounds(tier):
             "axes": "every valid axis incl. negative for Stack/Concatenate/Vmap condition axis", "partial_index_kinds":
             ["int", "negative int", "slice", "strided slice", "int array", "bool array", "tuple", "ellipsis tuple"],
             "merge_transforms": "every word of length 1-4 (thorough 1-5) over {Affine, TriangularAffine, AdditiveCondition, Flip} nested over StandardNormal and Normal (2-6 levels)",
-            "input_dtypes": "every expression with real domain on two int32 / float32 / float16 arrays vs the same values as float64",
+            "input_dtypes": "every expression with real domain (quick: depth <= 1) on two int32 / float32 / float16 arrays vs the same values as float64",
             "exhaustive_within_bounds": True}
 
 
@@ -384,7 +384,7 @@ def run_case(case):
         # other input dtypes (ArrayLike: "python built in numeric types (float, int)", integer arrays, float32 / float16 arrays while the
         # parameters are float64): same function as for the same values given as float64 - a combinator must not truncate results
         # into the input's dtype or refuse it. Values are small multiples of 1/2, exact in every dtype tried.
-        if level == levels[-1]:
+        if level == levels[-1] and (tier != "quick" or ii.depth <= 1):  # quick: depth-1 trees (every combinator kind and option); thorough: all
             for direction, avail, codes in (("fwd", ii.fwd, ii.dom), ("inv", ii.inv, ii.cod)):
                 if not avail or not np.all(codes == "R"):
                     continue
